@@ -695,6 +695,7 @@ pub fn parts() -> Vec<Box<dyn PartDyn>> {
             shrink_budget: 3000,
             confirm_runs: 1,
             fuzz: Some(fuzz_case),
+            watchdog_s: 0,
         }),
         Box::new(Part::<RawCase> {
             name: "raw",
@@ -707,6 +708,7 @@ pub fn parts() -> Vec<Box<dyn PartDyn>> {
             shrink_budget: 2000,
             confirm_runs: 1,
             fuzz: Some(fuzz_raw),
+            watchdog_s: 0,
         }),
         Box::new(Part::<NetCase> {
             name: "loopback",
@@ -719,6 +721,7 @@ pub fn parts() -> Vec<Box<dyn PartDyn>> {
             shrink_budget: 60,
             confirm_runs: 2,
             fuzz: None,
+            watchdog_s: 60,
         }),
     ]
 }
